@@ -34,6 +34,17 @@ def histogram(line):
         keys.append("L<M")
     if mat != "-" and not mat.endswith("4286578688"):
         keys.append("wildcard-column-not-neg-inf")
+    # checks the driver cannot make on this input (it prints them behind the verdict: `OK skipped=...`)
+    if mat != "-":
+        for row in mat.split("/"):
+            cells = row.split(",")[:-1]          # the non-wildcard columns
+            if any(((int(c) >> 23) & 0xFF) == 0xFF for c in cells):
+                keys.append("property-check-skipped:matrix-outside-the-theorem(non-finite-non-wildcard-cell)")
+                break
+    if m == 0:
+        keys.append("avx2-arms-skipped:panic-on-the-empty-motif")
+    if "hist" in f:
+        keys.append("histories=%d" % (f["hist"].count("|") + 1))
     return keys
 
 
